@@ -285,6 +285,7 @@ def run_library(spec, acc, api, con):
         script_function_failures(acc, api)
         system_fetch_failures(acc, api)
         odd_include_urls(acc, api)
+        host_typed_values(acc, api)
 
 
 DOCUMENTED_FAILURE = {'arrayIndexOf': -1, 'arrayLastIndexOf': -1, 'arrayLength': 0, 'objectHas': False, 'stringIndexOf': -1,
@@ -543,6 +544,41 @@ def odd_include_urls(acc, api):
                             acc.violation('host-exception-escaped', f'{stmt!r} ({where}, systemPrefix={prefix!r}, fetchFn {fetch_kind}): {type(exc).__name__}: {exc}', case)
                             return
                         acc.count('odd_include_url_runs')
+
+
+def host_typed_values(acc, api):
+    """Globals may hold values of host types the language does not know (UUID, Decimal, bytes, set, complex, arbitrary objects), also
+    inside arrays and objects: evaluating with them never lets a host exception out, and failure values stay the documented ones."""
+    import decimal
+    import uuid
+    import bare_script
+    rt_err = api[2]
+
+    class Opaque:  # pylint: disable=too-few-public-methods
+        pass
+    hosts = {'uuid': uuid.UUID('12345678-1234-5678-1234-567812345678'), 'decimal': decimal.Decimal('1.5'), 'bytes': b'raw', 'set': {1, 2}, 'frozenset': frozenset('ab'),
+             'complex': complex(1, 2), 'object': Opaque(), 'range': range(3), 'tuple': (1, 2), 'bytearray': bytearray(b'x'), 'type': int}
+    exprs = [("'ids: ' + arrayNew(hv)", None), ("'row=' + objectNew('k', hv)", None), ("'' + hv", None), ("hv + ''", None), ("arrayJoin(arrayNew(hv, 1), ',')", None),
+             ("jsonStringify(arrayNew(hv))", None), ("jsonStringify(objectNew('k', arrayNew(hv)), 2)", None), ("stringNew(hv)", None), ("stringNew(arrayNew(hv))", None),
+             ("arrayLength(hv)", 0), ("stringLength(arrayNew(hv))", 0), ("arrayIndexOf(hv, 1)", -1), ("objectHas(hv, 'a')", False), ("hv + 1", 'any'), ("hv == hv", 'any'), ("hv < 1", 'any'),
+             ("systemType(hv)", 'any'), ("systemCompare(arrayNew(hv), arrayNew(hv))", 'any'), ("arraySort(arrayNew(hv, 1, hv))", 'any'), ("mathMax(hv, 1)", 'any'),
+             ("dataSort(arrayNew(objectNew('a', hv), objectNew('a', 1)), arrayNew(arrayNew('a')))", 'any'), ("systemLog(hv)", 'any'), ("systemLogDebug(arrayNew(hv))", 'any')]
+    for hname, hv in hosts.items():
+        for text, want in exprs:
+            for debug in (False, True):
+                logs = []
+                case = {'host_type': hname, 'expr': text, 'debug': debug}
+                acc.case(('host-typed', hname, text, debug), True)
+                try:
+                    res = bare_script.execute_script(bare_script.parse_script('return ' + text), {'globals': {'hv': hv}, 'logFn': logs.append, 'debug': debug})
+                except rt_err:
+                    res = 'runtime-error'
+                except Exception as exc:  # pylint: disable=broad-except
+                    acc.violation('host-exception-escaped', f'{text} with hv = {hname} value (debug={debug}): {type(exc).__name__}: {exc}', case)
+                    continue
+                acc.count('host_typed_value_evaluations')
+                if want is not None and want != 'any' and res != want and res != 'runtime-error':
+                    acc.violation('failure-value', f'{text} with hv = {hname} value = {res!r}, documented failure value {want!r}', case)
 
 
 def data_functions_report_failures(acc, api):
